@@ -1,0 +1,24 @@
+//go:build verif
+
+package verifhooks
+
+import (
+	"context"
+
+	"github.com/sirupsen/logrus"
+
+	"github.com/atlassian/gostatsd/internal/awslambda/extension"
+	"github.com/atlassian/gostatsd/internal/flush"
+)
+
+// Runner is the extension's view of a server (internal/awslambda/extension.Server).
+type Runner interface {
+	Run(ctx context.Context) error
+}
+
+// NewLambdaManager returns the Lambda extension manager, with per-invocation flushing enabled, around an
+// arbitrary server: the same construction as pkg/lambda.NewExtension, which only accepts a *statsd.Server.
+func NewLambdaManager(log logrus.FieldLogger, runtimeAPI, executableName, telemetryAddr string, server Runner) Runner {
+	fc := flush.NewFlushCoordinator()
+	return extension.NewManager(runtimeAPI, executableName, log, server, extension.WithManualFlushEnabled(fc, telemetryAddr))
+}
